@@ -1,6 +1,7 @@
 import BSModel.Proofs.Formatter
 import BSModel.Proofs.FormatterBuild
 import BSModel.Proofs.FormatterPopulate
+import BSModel.Proofs.FormatterHidden
 import BSModel.Gen.FormatterHtml5
 import BSModel.Gen.Formatter
 /-! # C15 — formatter options take effect and output is deterministic
@@ -70,7 +71,7 @@ theorem ctor_forwards_all (a : Args) :
         cdata_containing_tags := a.cdata_containing_tags.getD [],
         empty_attributes_are_booleans := a.empty_attributes_are_booleans, indent := normIndent a.indent } := by
   refine ⟨fun l => ?_, ?_, ?_⟩ <;>
-    cases h : a.cdata_containing_tags <;> simp [mkFormatter, mkHTMLFormatter, mkXMLFormatter, default_, h, BS.Gen.fmtHtmlDefaultCdata]
+    cases h : a.cdata_containing_tags <;> simp [mkFormatter, mkFormatterCls, mkHTMLFormatter, mkXMLFormatter, default_, defaultCls, h, BS.Gen.fmtHtmlDefaultCdata]
 
 /-- No two settings that differ after normalisation give the same formatter object (no option is dropped), for each class. -/
 theorem ctor_injective (l : Option Lang) (a b : Args) :
@@ -78,7 +79,7 @@ theorem ctor_injective (l : Option Lang) (a b : Args) :
       a.entity_substitution = b.entity_substitution ∧ a.void_element_close_prefix = b.void_element_close_prefix ∧
       default_ (l.getD .html) a.cdata_containing_tags = default_ (l.getD .html) b.cdata_containing_tags ∧
       a.empty_attributes_are_booleans = b.empty_attributes_are_booleans ∧ normIndent a.indent = normIndent b.indent := by
-  simp [mkFormatter, Cfg.mk.injEq]
+  simp [mkFormatter, mkFormatterCls, default_, Cfg.mk.injEq]
 
 example : mkHTMLFormatter { indent := .int 3 } ≠ mkHTMLFormatter {} := by decide
 example : mkXMLFormatter { indent := .str [9] } ≠ mkXMLFormatter {} := by decide
@@ -90,7 +91,7 @@ theorem old_ctor_loses_indent (a : Args) :
     mkHTMLFormatterOld { a with indent := .int 3 } = mkHTMLFormatterOld { a with indent := .str [9] } ∧
     (mkHTMLFormatter { a with indent := .int 3 }).indent = [32, 32, 32] ∧
     (mkXMLFormatter { a with indent := .str [9] }).indent = [9] := by
-  simp [mkHTMLFormatterOld, mkXMLFormatterOld, mkHTMLFormatter, mkXMLFormatter, mkFormatter, normIndent]
+  simp [mkHTMLFormatterOld, mkXMLFormatterOld, mkHTMLFormatter, mkXMLFormatter, mkFormatter, mkFormatterCls, normIndent]
 
 /-! ## the registries and `formatter_for_name` -/
 
@@ -182,15 +183,15 @@ theorem render_skeleton (c : Cfg) (i : Subst → PStr → PStr) (par : Option PS
 theorem option_effect_void_Formatter (l : Option Lang) (a : Args) (p : Option PStr) (i : Subst → PStr → PStr)
     (par : Option PStr) (n : Node) :
     render (mkFormatter l { a with void_element_close_prefix := p }) i par n
-      = (toks par n).flatMap (withVoid (p.getD []) (interpTok (mkFormatter l a) i)) := effect_void l a p i par n
+      = (toks par n).flatMap (withVoid (p.getD []) (interpTok (mkFormatter l a) i)) := effect_void _ l a p i par n
 /-- the same for `HTMLFormatter` -/
 theorem option_effect_void_HTMLFormatter (a : Args) (p : Option PStr) (i : Subst → PStr → PStr) (par : Option PStr) (n : Node) :
     render (mkHTMLFormatter { a with void_element_close_prefix := p }) i par n
-      = (toks par n).flatMap (withVoid (p.getD []) (interpTok (mkHTMLFormatter a) i)) := effect_void _ a p i par n
+      = (toks par n).flatMap (withVoid (p.getD []) (interpTok (mkHTMLFormatter a) i)) := effect_void _ _ a p i par n
 /-- the same for `XMLFormatter` -/
 theorem option_effect_void_XMLFormatter (a : Args) (p : Option PStr) (i : Subst → PStr → PStr) (par : Option PStr) (n : Node) :
     render (mkXMLFormatter { a with void_element_close_prefix := p }) i par n
-      = (toks par n).flatMap (withVoid (p.getD []) (interpTok (mkXMLFormatter a) i)) := effect_void _ a p i par n
+      = (toks par n).flatMap (withVoid (p.getD []) (interpTok (mkXMLFormatter a) i)) := effect_void _ _ a p i par n
 
 /-- `<br/>`, `<br>`, `<br />` and `None` behaving as `""` -/
 example :
@@ -205,17 +206,17 @@ example :
 theorem option_effect_subst_Formatter (l : Option Lang) (a : Args) (s : Subst) (i : Subst → PStr → PStr) (par : Option PStr) (n : Node) :
     render (mkFormatter l { a with entity_substitution := s }) i par n
       = (toks par n).flatMap (withSubst s i (mkFormatter l a).cdata_containing_tags a.empty_attributes_are_booleans
-          (interpTok (mkFormatter l a) i)) := effect_subst l a s i par n
+          (interpTok (mkFormatter l a) i)) := effect_subst _ l a s i par n
 /-- the same for `HTMLFormatter` -/
 theorem option_effect_subst_HTMLFormatter (a : Args) (s : Subst) (i : Subst → PStr → PStr) (par : Option PStr) (n : Node) :
     render (mkHTMLFormatter { a with entity_substitution := s }) i par n
       = (toks par n).flatMap (withSubst s i (mkHTMLFormatter a).cdata_containing_tags a.empty_attributes_are_booleans
-          (interpTok (mkHTMLFormatter a) i)) := effect_subst _ a s i par n
+          (interpTok (mkHTMLFormatter a) i)) := effect_subst _ _ a s i par n
 /-- the same for `XMLFormatter` -/
 theorem option_effect_subst_XMLFormatter (a : Args) (s : Subst) (i : Subst → PStr → PStr) (par : Option PStr) (n : Node) :
     render (mkXMLFormatter { a with entity_substitution := s }) i par n
       = (toks par n).flatMap (withSubst s i (mkXMLFormatter a).cdata_containing_tags a.empty_attributes_are_booleans
-          (interpTok (mkXMLFormatter a) i)) := effect_subst _ a s i par n
+          (interpTok (mkXMLFormatter a) i)) := effect_subst _ _ a s i par n
 
 /-- `cdata_containing_tags = cd` (base class): exactly the ordinary strings are affected — verbatim when the parent's name
     is in `cd` (or in the language's default when `cd` is `None`), substituted otherwise. -/
@@ -223,48 +224,48 @@ theorem option_effect_cdata_Formatter (l : Option Lang) (a : Args) (cd : Option 
     (par : Option PStr) (n : Node) :
     render (mkFormatter l { a with cdata_containing_tags := cd }) i par n
       = (toks par n).flatMap (withCdata (default_ (l.getD .html) cd) a.entity_substitution i (interpTok (mkFormatter l a) i)) :=
-  effect_cdata l a cd i par n
+  effect_cdata _ l a cd i par n
 /-- the same for `HTMLFormatter`, whose default is `{script, style}` -/
 theorem option_effect_cdata_HTMLFormatter (a : Args) (cd : Option (List PStr)) (i : Subst → PStr → PStr) (par : Option PStr) (n : Node) :
     render (mkHTMLFormatter { a with cdata_containing_tags := cd }) i par n
       = (toks par n).flatMap (withCdata (cd.getD [SCRIPT, STYLE]) a.entity_substitution i (interpTok (mkHTMLFormatter a) i)) := by
-  have := effect_cdata (some .html) a cd i par n
-  cases cd <;> simpa [default_, BS.Gen.fmtHtmlDefaultCdata, mkHTMLFormatter] using this
+  have := effect_cdata BS.Gen.fmtHtmlDefaultCdata (some .html) a cd i par n
+  cases cd <;> simpa [default_, defaultCls, BS.Gen.fmtHtmlDefaultCdata, mkHTMLFormatter, mkFormatter] using this
 /-- the same for `XMLFormatter`, whose default is the empty set -/
 theorem option_effect_cdata_XMLFormatter (a : Args) (cd : Option (List PStr)) (i : Subst → PStr → PStr) (par : Option PStr) (n : Node) :
     render (mkXMLFormatter { a with cdata_containing_tags := cd }) i par n
       = (toks par n).flatMap (withCdata (cd.getD []) a.entity_substitution i (interpTok (mkXMLFormatter a) i)) := by
-  have := effect_cdata (some .xml) a cd i par n
-  cases cd <;> simpa [default_, mkXMLFormatter] using this
+  have := effect_cdata BS.Gen.fmtHtmlDefaultCdata (some .xml) a cd i par n
+  cases cd <;> simpa [default_, defaultCls, mkXMLFormatter, mkFormatter] using this
 
 /-- `empty_attributes_are_booleans = b` (base class): exactly the attributes whose value is `""` are affected — written as
     the bare name when `b`, as `name=<quoted substituted "">` otherwise. -/
 theorem option_effect_eab_Formatter (l : Option Lang) (a : Args) (b : Bool) (i : Subst → PStr → PStr) (par : Option PStr) (n : Node) :
     render (mkFormatter l { a with empty_attributes_are_booleans := b }) i par n
-      = (toks par n).flatMap (withEab b a.entity_substitution i (interpTok (mkFormatter l a) i)) := effect_eab l a b i par n
+      = (toks par n).flatMap (withEab b a.entity_substitution i (interpTok (mkFormatter l a) i)) := effect_eab _ l a b i par n
 /-- the same for `HTMLFormatter` -/
 theorem option_effect_eab_HTMLFormatter (a : Args) (b : Bool) (i : Subst → PStr → PStr) (par : Option PStr) (n : Node) :
     render (mkHTMLFormatter { a with empty_attributes_are_booleans := b }) i par n
-      = (toks par n).flatMap (withEab b a.entity_substitution i (interpTok (mkHTMLFormatter a) i)) := effect_eab _ a b i par n
+      = (toks par n).flatMap (withEab b a.entity_substitution i (interpTok (mkHTMLFormatter a) i)) := effect_eab _ _ a b i par n
 /-- the same for `XMLFormatter` -/
 theorem option_effect_eab_XMLFormatter (a : Args) (b : Bool) (i : Subst → PStr → PStr) (par : Option PStr) (n : Node) :
     render (mkXMLFormatter { a with empty_attributes_are_booleans := b }) i par n
-      = (toks par n).flatMap (withEab b a.entity_substitution i (interpTok (mkXMLFormatter a) i)) := effect_eab _ a b i par n
+      = (toks par n).flatMap (withEab b a.entity_substitution i (interpTok (mkXMLFormatter a) i)) := effect_eab _ _ a b i par n
 
 /-- `indent = x` (base class): pretty-printing writes the normalised unit `depth` times wherever an indentation of that
     depth stands (the item list does not depend on `indent`), and plain `decode()` is not affected at all. -/
 theorem option_effect_indent_Formatter (l : Option Lang) (a : Args) (x : IndentArg) (i : Subst → PStr → PStr) (lv : Nat)
     (par : Option PStr) (n : Node) :
     pretty (mkFormatter l { a with indent := x }) i lv par n = fillInd (normIndent x) (prettyItems (mkFormatter l a) i lv false par n)
-    ∧ render (mkFormatter l { a with indent := x }) i par n = render (mkFormatter l a) i par n := effect_indent l a x i lv par n
+    ∧ render (mkFormatter l { a with indent := x }) i par n = render (mkFormatter l a) i par n := effect_indent _ l a x i lv par n
 /-- the same for `HTMLFormatter` — true of the repaired constructor only (see `old_ctor_loses_indent`) -/
 theorem option_effect_indent_HTMLFormatter (a : Args) (x : IndentArg) (i : Subst → PStr → PStr) (lv : Nat) (par : Option PStr) (n : Node) :
     pretty (mkHTMLFormatter { a with indent := x }) i lv par n = fillInd (normIndent x) (prettyItems (mkHTMLFormatter a) i lv false par n)
-    ∧ render (mkHTMLFormatter { a with indent := x }) i par n = render (mkHTMLFormatter a) i par n := effect_indent _ a x i lv par n
+    ∧ render (mkHTMLFormatter { a with indent := x }) i par n = render (mkHTMLFormatter a) i par n := effect_indent _ _ a x i lv par n
 /-- the same for `XMLFormatter` — true of the repaired constructor only -/
 theorem option_effect_indent_XMLFormatter (a : Args) (x : IndentArg) (i : Subst → PStr → PStr) (lv : Nat) (par : Option PStr) (n : Node) :
     pretty (mkXMLFormatter { a with indent := x }) i lv par n = fillInd (normIndent x) (prettyItems (mkXMLFormatter a) i lv false par n)
-    ∧ render (mkXMLFormatter { a with indent := x }) i par n = render (mkXMLFormatter a) i par n := effect_indent _ a x i lv par n
+    ∧ render (mkXMLFormatter { a with indent := x }) i par n = render (mkXMLFormatter a) i par n := effect_indent _ _ a x i lv par n
 
 /-- `<p a="" b="&"><br/>x&amp;y<script>1&2</script><!--&--></p>` under "minimal", and what each option changes -/
 def sample : Node :=
@@ -295,6 +296,38 @@ example : render (mkXMLFormatter { entity_substitution := .xml, cdata_containing
     = ofS "<p a=\"\" b=\"&amp;\"><br/>x&amp;y<script>1&2</script><!--&--></p>" := by decide +kernel
 example : pretty (mkXMLFormatter { entity_substitution := .xml, indent := .int 0 }) builtin 0 none sample
     = ofS "<p a=\"\" b=\"&amp;\">\n<br/>\nx&amp;y\n<script>\n1&amp;2\n</script>\n<!--&-->\n</p>\n" := by decide +kernel
+
+/-! ### user subclasses that declare their own `HTML_DEFAULTS` -/
+
+/-- `_default` reads the table through the instance: a subclass of `Formatter`/`HTMLFormatter`/`XMLFormatter` whose
+    `HTML_DEFAULTS['cdata_containing_tags']` is `hd` gets `hd` when `cdata_containing_tags` is not passed and the language is
+    not XML, nothing for XML, and the argument itself (the empty set included) when it is passed. -/
+theorem subclass_defaults_take_effect (hd : List PStr) (l : Option Lang) (a : Args) :
+    (mkFormatterCls hd l { a with cdata_containing_tags := none }).cdata_containing_tags
+      = (if l.getD .html = .xml then [] else hd) ∧
+    ∀ cd, (mkFormatterCls hd l { a with cdata_containing_tags := some cd }).cdata_containing_tags = cd := by
+  simp [mkFormatterCls, defaultCls]
+
+/-- Every option has the same effect in such a subclass as in the stock classes (the five `option_effect_*` statements with
+    the class's own table in the place of `{script, style}`). -/
+theorem subclass_option_effects (hd : List PStr) (l : Option Lang) (a : Args) (i : Subst → PStr → PStr) (par : Option PStr) (n : Node) :
+    (∀ p, render (mkFormatterCls hd l { a with void_element_close_prefix := p }) i par n
+      = (toks par n).flatMap (withVoid (p.getD []) (interpTok (mkFormatterCls hd l a) i))) ∧
+    (∀ s, render (mkFormatterCls hd l { a with entity_substitution := s }) i par n
+      = (toks par n).flatMap (withSubst s i (mkFormatterCls hd l a).cdata_containing_tags a.empty_attributes_are_booleans
+          (interpTok (mkFormatterCls hd l a) i))) ∧
+    (∀ cd, render (mkFormatterCls hd l { a with cdata_containing_tags := cd }) i par n
+      = (toks par n).flatMap (withCdata (defaultCls hd (l.getD .html) cd) a.entity_substitution i (interpTok (mkFormatterCls hd l a) i))) ∧
+    (∀ b, render (mkFormatterCls hd l { a with empty_attributes_are_booleans := b }) i par n
+      = (toks par n).flatMap (withEab b a.entity_substitution i (interpTok (mkFormatterCls hd l a) i))) ∧
+    (∀ x lv, pretty (mkFormatterCls hd l { a with indent := x }) i lv par n
+      = fillInd (normIndent x) (prettyItems (mkFormatterCls hd l a) i lv false par n)) :=
+  ⟨fun p => effect_void hd l a p i par n, fun s => effect_subst hd l a s i par n, fun cd => effect_cdata hd l a cd i par n,
+   fun b => effect_eab hd l a b i par n, fun x lv => (effect_indent hd l a x i lv par n).1⟩
+
+/-- a subclass of `HTMLFormatter` declaring `{p}`: text in `<p>` verbatim, `<script>` text substituted -/
+example : render (mkFormatterCls [[112]] (some .html) { entity_substitution := .xml }) builtin none sample
+    = ofS "<p a=\"\" b=\"&amp;\"><br/>x&y<script>1&amp;2</script><!--&--></p>" := by decide +kernel
 
 /-! ## scope of a custom substitution function -/
 
@@ -771,5 +804,35 @@ example := output_is_function_of_tree_and_configuration BS.Gen.htmlAlts.reverse 
 example := populate_order_irrelevant_live (fun a => { a with notNext := a.notNext.reverse }) (fun _ => rfl) (fun _ => rfl)
   (fun _ _ => List.mem_reverse) _ (List.reverse_perm _) [8810, 824, 8810, 8402]
 example := populate_exclusive tinyTable [] (tableOKChk_sound _ (by decide))
+
+/-! ## trees with user-hidden tags (`tag.hidden = True`) -/
+
+/-- On a tree without hidden tags the model with hidden tags is the model above, for every output method. -/
+theorem hidden_free_refinement (c : Cfg) (i : Subst → PStr → PStr) (m : Mode) (par : Option PStr) (n : Node) :
+    renderModeH c i m par (HNode.ofNode n) = renderMode c i m par n := renderModeH_ofNode c i m par n
+
+/-- A hidden tag writes nothing of its own; its contents are written as if they stood one level deeper (string-literal mode
+    switched on if the hidden tag preserves whitespace); and what follows it is written at the level it would have without
+    the hidden tag — the hidden tag opens and closes exactly one level. -/
+theorem hidden_tag_is_transparent (c : Cfg) (i : Subst → PStr → PStr) (lv : Nat) (lit : Bool) (par : Option PStr)
+    (n p : PStr) (as : List (PStr × AttrVal)) (cbe pre : Bool) (k : HNode) (ks rest : List HNode) :
+    renderHL c i par (.tag true n p as cbe pre (k :: ks) :: rest) = renderHL c i (some n) (k :: ks) ++ renderHL c i par rest ∧
+    prettyItemsHL c i lv lit par (.tag true n p as cbe pre (k :: ks) :: rest)
+      = prettyItemsHL c i (lv + 1) (lit || pre) (some n) (k :: ks) ++ prettyItemsHL c i lv lit par rest ∧
+    prettyItemsHL c i lv lit par (.tag true n p as true pre [] :: rest) = prettyItemsHL c i lv lit par rest := by
+  refine ⟨?_, ?_, ?_⟩ <;> simp [renderHL, renderH, prettyItemsHL, prettyItemsH]
+
+/-- No line of a pretty-printed element is indented less deep than the level the element was printed at, whatever hidden
+    tags it contains (the level counter never falls below its starting value). -/
+theorem indentation_survives_hidden_tags (c : Cfg) (i : Subst → PStr → PStr) (lv : Nat) (lit : Bool) (par : Option PStr)
+    (n : HNode) : ∀ d ∈ indDepths (prettyItemsH c i lv lit par n), lv ≤ d := indDepths_ge c i lv lit par n
+
+/-- `<div><span hidden><b>x</b></span><i>y</i></div>`, the span hidden, unit `--`: `<i>` stays at depth 1 -/
+example :
+    renderModeH (mkHTMLFormatter { indent := .str [45, 45] }) builtin (.pretty 0) none
+      (.tag false [100, 105, 118] [] [] false false
+        [.tag true [115] [] [([97], .str [49])] false false [.tag false [98] [] [] false false [.str .text [120]]],
+         .tag false [105] [] [] false false [.str .text [121]]])
+    = .ok (ofS "<div>\n----<b>\n------x\n----</b>\n--<i>\n----y\n--</i>\n</div>\n") := by decide +kernel
 
 end BS.Props.C15
